@@ -277,6 +277,9 @@ public:
 		// start directly on this object: assigning the copy returned by start() would overwrite a finished flag already set by the new thread
 		Context<F> s = { f, this, false, 0, 0, 0 };
 		run((Function_)Thread::beginf<F>, (void*)&s);
+#ifdef ASL_VERIF
+		while (!s.ready) asl_verif_spin(&s.ready);
+#endif
 		while (!s.ready) {}
 	}
 	template<class Func>
